@@ -122,6 +122,34 @@ func zzH_C06_aggregate_self_consistent(t *zzT) {
 	for i := range order {
 		order[i] = t.U8(t.Name("key", i))
 	}
+	zz06AggSelf(t, n, order)
+}
+
+// The same obligation at validator counts around a whole byte of aggregation bits (7, 8, 9 and 16 validators;
+// seed C06-12 sized the bitmap len/8+1 and verification demanded exactly ceil(n/8) bytes — only multiples of 8
+// differ). The relative key order is fixed here (a rotation), the signer subset, weights and threshold are symbolic.
+//
+//zz:opt loop=600 require=done budget=300s
+//zz:stub (*github.com/supranational/blst/bindings/go.P1Affine).Uncompress zz06StubP1Uncompress
+//zz:stub (*github.com/supranational/blst/bindings/go.P2Affine).Uncompress zz06StubP2Uncompress
+//zz:stub (*github.com/supranational/blst/bindings/go.P2Affine).Compress zz06StubP2Compress
+//zz:stub (*github.com/supranational/blst/bindings/go.P2Aggregate).Aggregate zz06StubAggregate
+//zz:stub (*github.com/supranational/blst/bindings/go.P2Aggregate).ToAffine zz06StubToAffine
+//zz:stub (*github.com/supranational/blst/bindings/go.P2Affine).FastAggregateVerify zz06StubFastAggregateVerify
+func zzH_C06_aggregate_self_consistent_byte_boundary(t *zzT) {
+	sizes := []int{7, 8, 9, 16}
+	n := sizes[t.Choice("n", 4)]
+	order := make([]byte, n)
+	for i := range order {
+		order[i] = byte((i*5 + 3) % n) // a fixed permutation-like order with distinct ranks for n coprime to 5
+	}
+	zz06AggSelfSigners(t, n, order, 2)
+}
+
+func zz06AggSelf(t *zzT, n int, order []byte) { zz06AggSelfSigners(t, n, order, n) }
+
+// free = how many validators have a symbolic "signs" flag (the others all sign): bounds the forking for large n
+func zz06AggSelfSigners(t *zzT, n int, order []byte, free int) {
 	e := zz06NewBLS(t, n, order)
 	cert := &Certificate{BlockID: make([]byte, 32), Height: 7, Timestamp: 70, StateRoot: []byte{9}, ValidatorsHash: []byte{8}}
 	cert.BlockID[0] = 0xb1
@@ -137,7 +165,7 @@ func zzH_C06_aggregate_self_consistent(t *zzT) {
 	for i := 0; i < n; i++ {
 		weights[i] = t.U64(t.Name("weight", i))
 		t.Assume(weights[i] < 1<<60)
-		signs[i] = t.Bool(t.Name("signs", i))
+		signs[i] = i >= free || t.Bool(t.Name("signs", i))
 		keypairs = append(keypairs, &AddressKeyPair{Address: zz06Addr(i), BLSKey: e.keys[i]})
 	}
 	for i := 0; i < n; i++ {
